@@ -425,4 +425,13 @@ def removeGapSites (test : Nat → Nat → Bool) (ends : Bool) (b : Bag) : Optio
   let r := removeCharacterSites test (pairs b) b.length b.alphabet [GAP] ends false false false false
   some ({ b with rows := withSeqs b.rows r.rows, length := r.length }, r)
 
+/-- `align.Compress()` through the C13 model: the distinct column patterns (in the order of the radix-tree
+walk) overwrite the first residues of every row, the rows are cut there, the cached length becomes the number
+of patterns — also for an alignment of length −1, whose cached length becomes 0; returns the weights.
+`none` = index panic: every row is read at every site below the cached length. -/
+def compressBag (b : Bag) : Option (Bag × List Nat) :=
+  if b.rows.any (fun r => r.seq.length < b.length.toNat) then none else
+  let r := compress (pairs b) b.length
+  some ({ b with rows := withSeqs b.rows r.1, length := r.2.2 }, r.2.1)
+
 end Gv.Model
